@@ -75,6 +75,7 @@ struct RunSpec {
   std::vector<int> dtasks;
   bool serial_only = false;  // c12: pristine serial reference run
   bool force_calm = false;   // confirmation runs: aligned, zero-filled memory
+  bool reuse = false;        // released library blocks of equal size are handed out again (LIFO), as real allocators do
 };
 
 static const char* pol_names[] = {"serial", "random", "pct", "replay"};
@@ -100,7 +101,7 @@ static Json spec_to_json(const RunSpec& s, const std::vector<uint64_t>* dsteps, 
   }
   sc.set("decisions", dec);
   j.set("sched", sc);
-  j.set("serial_only", Json::inum(s.serial_only));
+  j.set("serial_only", Json::inum(s.serial_only)).set("reuse", Json::inum(s.reuse));
   j.set("program", s.P.to_json());
   return j;
 }
@@ -121,6 +122,7 @@ static bool spec_from_json(const Json& j, RunSpec& s, std::string& err) {
   s.warm = j.i("warm") != 0;
   s.mem_salt = j.u("mem_salt");
   s.serial_only = j.i("serial_only") != 0;
+  s.reuse = j.i("reuse") != 0;
   const Json* sc = j.get("sched");
   if (sc) {
     std::string pn = sc->str_("policy");
@@ -159,6 +161,7 @@ static RunSpec derive_spec(const std::string& world, int variant, uint64_t run_s
   Rng rc(run_seed, 1);  // configuration stream
   s.mem_salt = rc.next();
   s.sched_seed = rc.next();
+  s.reuse = (s.mem_salt >> 11) & 1;
   GenCfg g;
   g.thorough = thorough;
   g.max_log2n = 6;
@@ -838,7 +841,7 @@ static void run_c12(const RunSpec& s, RunResult& R) {
 // ---------------------------------------------------------------------------------------------- one run
 static std::string result_json(const RunSpec& s, RunResult& R, long idx) {
   program_stats(R.stats, s.P);
-  R.stats.set("maskA", Json::str(mask_names[s.maskA])).set("maskB", Json::str(mask_names[s.maskB]));
+  R.stats.set("maskA", Json::str(mask_names[s.maskA])).set("maskB", Json::str(mask_names[s.maskB])).set("address_reuse", Json::inum(s.reuse && SIM_FLAVOUR != SIM_TSAN));
   for (auto& v : R.viol) R.mix(hash_bytes(v.kind.data(), v.kind.size()) + (uint64_t)v.call * 7 + (uint64_t)v.op);
   Json j = Json::obj();
   j.set("run", Json::inum(idx)).set("seed", Json::num(s.run_seed)).set("world", Json::str(s.world)).set("variant", Json::inum(s.variant)).set("status", Json::str(R.status));
@@ -857,6 +860,7 @@ static std::string result_json(const RunSpec& s, RunResult& R, long idx) {
 
 static void execute(const RunSpec& s, RunResult& R) {
   sim_heap_init(s.run_seed);
+  sim_set_reuse(s.reuse);
   if (s.world == "c11")
     run_c11(s, R);
   else if (s.world == "c07")
